@@ -136,6 +136,8 @@ def _let(pat, scr):
         # opt.and_then(f) is Some exactly when opt is Some(v) and f(v) is Some
         return ("op", "&&", [_let("v1::Some($)", scr[2][0]), _let(pat, _apply(scr[2][1], _proj_some(scr[2][0])))])
     if re.fullmatch(r"(v1|Option)::Some\([$_(),]*\)", pat):
+        if scr[0] == "call" and scr[1] == "Option::zip" and len(scr[2]) == 2:
+            return ("op", "&&", [_let("v1::Some($)", scr[2][0]), _let("v1::Some($)", scr[2][1])])     # a.zip(b) is Some  ==  both are
         if scr[0] == "if" and scr[3] == ("def", "v1::None"):
             return ("op", "&&", [scr[1], _let(pat, scr[2])])        # (if c { a } else { None }) is Some  ==  c && a is Some
         if scr[0] == "if" and scr[2] == ("def", "v1::None"):
@@ -2092,7 +2094,8 @@ class Norm:
                     t = t[2][int(acc)]
                 elif t[0] == "call" and t[1] in ("Option::map", "Option::and_then") and v in ("v1::Some", "Option::Some") and acc == "0" and len(t[2]) == 2 and t[2][1][0] == "closure":
                     t = _proj_some(t)
-                elif v in ("v1::Some", "Option::Some") and acc == "0" and (t[0] == "if" and ("def", "v1::None") in (t[2], t[3]) or t[0] == "call" and t[1] == "then" and len(t[2]) == 2):
+                elif v in ("v1::Some", "Option::Some") and acc == "0" and (t[0] == "if" and ("def", "v1::None") in (t[2], t[3])
+                                                                           or t[0] == "call" and t[1] in ("then", "Option::zip") and len(t[2]) == 2):
                     t = _proj_some(t)
                 elif t[0] == "call" and t[1] in ("slice::split_first",) and len(t[2]) == 1 and v in ("v1::Some", "Option::Some") and acc == "0":
                     t = ("tup", [("index", t[2][0], ("lit", "0")), ("index", t[2][0], _RANGE_FROM_1)])     # xs.split_first() = (xs[0], xs[1..])
@@ -3000,6 +3003,8 @@ def _proj_some(O):
         return _apply(O[2][1], inner)
     if O[0] == "call" and O[1] == "Option::and_then" and len(O[2]) == 2 and O[2][1][0] == "closure" and O[2][1][2] == 1:
         return _proj_some(_apply(O[2][1], _proj_some(O[2][0])))
+    if O[0] == "call" and O[1] == "Option::zip" and len(O[2]) == 2:
+        return ("tup", [_proj_some(O[2][0]), _proj_some(O[2][1])])
     if O[0] == "if" and O[3] == ("def", "v1::None"):
         return _proj_some(O[2])          # the payload of `if c { a } else { None }`, known to be Some, is a's
     if O[0] == "if" and O[2] == ("def", "v1::None"):
